@@ -819,6 +819,14 @@ def evaluate(ctx, cases, stream=None):
             if k not in slot:
                 slot[k] = len(reqs)
                 reqs.append(dict(p='C05', op='lines', lines=c[side]))
+        if c.get('inc'):
+            # hypotheses of theorem include_layout_invariance: the text in front of the include file and the include file itself
+            for side in ('a', 'b'):
+                s_, e_ = c['inc'][side]
+                for k in (tuple(c[side][:s_]), tuple(c[side][s_:e_])):
+                    if k not in slot:
+                        slot[k] = len(reqs)
+                        reqs.append(dict(p='C05', op='lines', lines=list(k)))
     ans = ctx.driver.batch(reqs)
     seen = {}
 
@@ -858,6 +866,12 @@ def evaluate(ctx, cases, stream=None):
                                      model=dict(norm_a=ra['spec'], norm_b=rb['spec'])), kind='property')
         # --- include: the same pair, a block of instructions read from a '+filename' include file through read_file()
         if c.get('inc'):
+            (sa, ea), (sb, eb) = c['inc']['a'], c['inc']['b']
+            pre_a, pre_b = ans[slot[tuple(c['a'][:sa])]]['spec'], ans[slot[tuple(c['b'][:sb])]]['spec']
+            blk_a, blk_b = ans[slot[tuple(c['a'][sa:ea])]]['spec'], ans[slot[tuple(c['b'][sb:eb])]]['spec']
+            if pre_a is None or pre_b is None or blk_a is None or blk_b is None or up(blk_a) != up(blk_b):
+                raise RuntimeError(f'C05 generator left the domain of include_layout_invariance (kind {kind}): norm of the include file '
+                                   f'{blk_a!r:.200} / {blk_b!r:.200}, of the text in front {pre_a is not None} / {pre_b is not None}')
             ia, ib = [observe(c[s_], c.get('elements'), dict(name=c['inc']['name'], span=c['inc'][s_])) for s_ in ('a', 'b')]
             d = first_diff(ia, ib)
             if d is not None:
